@@ -278,9 +278,11 @@ QUICK = [
     (1, ["none"], [["set", ("read", 0)], [("read", 0)]], 28, 44),
 ]
 THOROUGH = QUICK + [
-    (1, ["none"], [["set"], [("read", 0)], [("read", 0)]], 36, 40),
+    # not registered: no verdict within 30 min at 40 steps / 8 min at 32 steps (three threads, two 74-node readers)
+    # (1, ["none"], [["set"], [("read", 0)], [("read", 0)]], 36, 40),
     (1, ["none"], [["set", "set"], [("read", 0), ("read", 0)]], 40, 56),
-    (1, ["ready0"], [["set", ("read", 0)], ["set"], [("read", 0)]], 40, 48),
+    # not registered: no verdict within 30 min at 48 steps / 8 min at 36 steps
+    # (1, ["ready0"], [["set", ("read", 0)], ["set"], [("read", 0)]], 40, 48),
 ]
 
 
